@@ -42,7 +42,9 @@ def plan(tier, seed):
 
 def cases(spec, ctx):
     if spec["work"] == "sweep":
-        yield {"work": "sweep", "reads": spec["reads"]}
+        yield {"work": "sweep", "reads": spec["reads"], "W": 5, "H": 4}
+        yield {"work": "sweep", "reads": spec["reads"] // 3, "W": 1, "H": 1}
+        yield {"work": "sweep", "reads": spec["reads"] // 3, "W": 7, "H": 2}
     else:
         for i in range(spec["n"]):
             yield {"work": "rasters", "part": spec["part"], "i": i}
@@ -281,10 +283,10 @@ def run_case(case, ctx):
 def _sweep(case, ctx):
     from pandora.img_tools import create_dataset_from_inputs, get_window
 
-    W, H = 5, 4
-    rng = ctx.rng("sweep")
+    W, H = case.get("W", 5), case.get("H", 4)
+    rng = ctx.rng("sweep", W, H)
     img = rng.integers(0, 255, (H, W)).astype(np.float32)
-    d = os.path.join(ctx.workdir, "sweep")
+    d = os.path.join(ctx.workdir, f"sweep{W}x{H}")
     cfg = {"img": rasters.write_tif(os.path.join(d, "img.tif"), img, "float32"), "disp": [-2, 2], "nodata": -9999}
     mm = rng.integers(0, 2, (H, W)).astype(np.int16)
     cfg["mask"] = rasters.write_tif(os.path.join(d, "mask.tif"), mm, "int16")
